@@ -371,6 +371,20 @@ def pawn_obligation(fn, t, F, D, inv_ok, line):
         oks.append(guard and in_range and recv == ("var", "pos"))
         found[owner] = {"delta": hir.fmt(d, 30), "guarded by row == %d" % first: guard}
     ptype_ok = any(l.get("name") == "pos" and l["ty"] == "chess::position::Position" for l in fn["mir"]["locals"])
+    if not all(oks):
+        # a literal square plus a literal step (the squares of the back row beside the king's home square): decided by value for
+        # either side to move
+        from .common import chess_evalcalls
+        ev = chess_evalcalls(None, {})
+        lit_ok = []
+        for c2 in calls:
+            for owner in ("White", "Black"):
+                a2 = {("field", ("var", "self"), "owner"): ("variant", "chess::Player::" + owner),
+                      ("field", ("var", "game"), "current_player"): ("variant", "chess::Player::" + owner)}
+                v = hir.fold(hir.fold(sym(c2), a2, D, None, ev), a2, D, None, ev)
+                lit_ok.append(v[:1] == ("pos",) and 0 <= v[1] <= 7 and 0 <= v[2] <= 7)
+        if lit_ok and all(lit_ok):
+            return "PAWN", inv_ok, {"literal square + literal step": "on the board for either side"}
     return "PAWN", all(oks) and inv_ok and ptype_ok, found
 
 
